@@ -423,6 +423,7 @@ package yang
 //@ pred revsOK(s *Module) = s != nil && (forall i int :: 0 <= i && i < len(s.Revision) ==> s.Revision[i] != nil)
 //
 //@ func (*Modules).add props C13 C03 C05
+//@   props_of no-false-duplicate C13 C05
 //@   requires ms != nil && ms.Modules != nil && ms.SubModules != nil && n != nil && !typeis(n, *Statement)
 //@   requires typeis(n, *Module) ==> asptr(n, *Module) != nil && nodeName(n) == asptr(n, *Module).Name
 //@   requires forall x *Module :: x != nil ==> revsOK(x)
@@ -780,6 +781,18 @@ package yang
 // Package-level tables that every goroutine reads: written by init only.
 //@ init_only typeMap nameMap aliases knownWords EntryKindToName fromDeviation toDeviation TypeKindFromName TypeKindToName BaseTypedefs baseTypes
 //@ init_only Int8Range Int16Range Int32Range Int64Range Uint8Range Uint16Range Uint32Range Uint64Range revisionDateSuffixRegex
+
+// ---------------------------------------------------------------------------
+// C03: only modules and submodules are built and added. Modules.Parse hands a
+// top-level statement to the builder only if its keyword is module or
+// submodule (anything else is refused before it is built); Modules.add, above,
+// accepts only nodes of those two kinds. The builder itself is closures over
+// reflect made at init and is outside the subset.
+//@ func buildASTWithTypeDict trusted
+//@   ensures result1 == nil ==> result != nil
+//@ func (*Modules).Parse props C03 C18
+//@   only before:
+//@   before[only-a-module-or-submodule-is-built] buildASTWithTypeDict arg0.Keyword == "module" || arg0.Keyword == "submodule"
 
 // ---------------------------------------------------------------------------
 // C07: augments. Entry.Augment, one pass over the augments collected on e: an
